@@ -30,6 +30,7 @@ SETS(DEF_ACC)
 #define LDP(arr, off, sz, n) (VM_PCHK(off, sz, n), (sz) == 8 ? arr[(off) >> 3] : ((arr[(off) >> 3] >> (((off) & 7UL) * 8)) & vm_szmask(sz)))
 #define STP(arr, off, v, sz, n) do { W o_ = (off), v_ = (v); VM_PCHK(o_, sz, n); if ((sz) == 8) arr[o_ >> 3] = v_; else { W sh_ = (o_ & 7UL) * 8, m_ = vm_szmask(sz) << sh_; arr[o_ >> 3] = (arr[o_ >> 3] & ~m_) | ((v_ << sh_) & m_); } } while (0)
 
+static W vm_popcount(W x) { x = x - ((x >> 1) & 0x5555555555555555UL); x = (x & 0x3333333333333333UL) + ((x >> 2) & 0x3333333333333333UL); x = (x + (x >> 4)) & 0x0f0f0f0f0f0f0f0fUL; return (x * 0x0101010101010101UL) >> 56; }
 static void vm_assume(W c) { __CPROVER_assume(c != 0); }
 static W vm_nondet(void) { return nondet_W(); }
 static W vm_self(void) { return vm_tid; }
